@@ -6,38 +6,92 @@
 # map (the cached wrappers, the sampler steps) is verified against them.
 
 
-@spec_abstract
-def AMOK(m: ArrayMap) -> bool:
-    """structural well-formedness of an array map (opaque)"""
+@spec
+def NODE(tree: A[int, 2], key: A[int, 1], i: int) -> int:
+    """the trie node reached after consuming key[0..i), or -1 when the path does not exist"""
+    decreases(i)
+    if i <= 0:
+        return 0
+    return ite(NODE(tree, key, i - 1) < 0, -1, tree[NODE(tree, key, i - 1), key[i - 1]])
 
 
-@spec_abstract
+@lemma(shared=True)
+def lemma_node_missing(tree: A[int, 2], key: A[int, 1], i: int, L: int):
+    """once a pointer is missing the path stays missing"""
+    requires(0 <= i, i <= L, NODE(tree, key, i) < 0)
+    ensures(NODE(tree, key, L) < 0)
+    decreases(L - i)
+    if i < L:
+        unfold(NODE(tree, key, i + 1))
+        lemma_node_missing(tree, key, i + 1, L)
+
+
+@spec_inline
+def VIDX(tree: A[int, 2], key: A[int, 1], L: int) -> int:
+    """slot 0 of the leaf reached by `key` holds the index of its value (or -1)"""
+    return ite(NODE(tree, key, L) < 0, -1, tree[NODE(tree, key, L), 0])
+
+
+@spec_inline
+def KEYOK(key: A[int, 1], L: int, B: int) -> bool:
+    return forall(0, L, lambda i: 0 <= key[i] and key[i] < B)
+
+
+@spec_inline
+def AMKEYS(m: ArrayMap, B: int) -> bool:
+    """for every key: the path stays among the allocated nodes, the value index among the allocated values,
+    and a stored value is a finite number"""
+    return forall_arr1(lambda key: implies(KEYOK(key, m[2], B), forall(0, m[2] + 1, lambda i: -1 <= NODE(m[0], key, i) and NODE(m[0], key, i) < m[3]) and -1 <= VIDX(m[0], key, m[2]) and VIDX(m[0], key, m[2]) < m[4] and implies(VIDX(m[0], key, m[2]) >= 0, finite(m[1][VIDX(m[0], key, m[2])]))))
+
+
+@spec
+def AMOK(m: ArrayMap, T: int, B: int, V: int) -> bool:
+    """representation invariant (T, B, V: numbers of tree rows, branches per node, value slots)"""
+    return m[2] >= 0 and B >= 1 and 1 <= m[3] and m[3] < T and 0 <= m[4] and m[4] < V and isnan(m[1][m[4]]) and not isninf(m[1][m[4]]) and AMKEYS(m, B)
+
+
+@spec
 def AMMISS(m: ArrayMap, key: A[int, 1]) -> bool:
     """looking up `key` yields the NaN miss sentinel"""
+    return VIDX(m[0], key, m[2]) < 0
 
 
-@spec_abstract
+@spec
 def AMGET(m: ArrayMap, key: A[int, 1]) -> float:
     """the value served for `key` when it is not a miss"""
+    return real(m[1][VIDX(m[0], key, m[2])])
 
 
-@contract("mchap.assemble.arraymap.get", trusted=True, props=["C09"])
+@contract("mchap.assemble.arraymap.get", machine_ints=True, props=["C09"])
 def get(array_map: Opt[ArrayMap], array: A[i1, 1]) -> float:
-    requires(implies(array_map is not None, AMOK(array_map) and len(array) == array_map[2]))
+    requires(implies(array_map is not None, AMOK(array_map, len(array_map[0]), array_map[0].shape[1], len(array_map[1])) and len(array) == array_map[2]))
     requires(implies(array_map is not None, forall(0, len(array), lambda i: 0 <= array[i] and array[i] < array_map[0].shape[1])))
     ensures(not isninf(result))
     ensures(implies(array_map is None, isnan(result)))
     ensures(implies(array_map is not None, isnan(result) == AMMISS(array_map, val(array))))
     ensures(implies(array_map is not None and not isnan(result), result == AMGET(array_map, val(array))))
+    with entry():
+        if array_map is not None:
+            unfold(AMOK(array_map, len(array_map[0]), array_map[0].shape[1], len(array_map[1])))
+            instantiate(AMKEYS(array_map, array_map[0].shape[1]), array)
+            unfold(AMMISS(array_map, val(array)), AMGET(array_map, val(array)))
+            unfold(NODE(array_map[0], array, 0))
+    with loop(0):
+        invariant(0 <= i, i <= len(array), node == NODE(tree, array, i), node >= 0)
+        with head():
+            unfold(NODE(tree, array, i + 1))
+    with before_stmt("return values[empty_values]"):
+        # a missing pointer on the way: the rest of the path is missing too
+        lemma_node_missing(tree, array, i + 1, array_length)
 
 
 @contract("mchap.assemble.arraymap.set", trusted=True, props=["C09"], opt_result={"": "array_map"})
 def set(array_map: Opt[ArrayMap], array: A[i1, 1], value: float, empty_if_full: bool) -> Opt[ArrayMap]:
-    requires(implies(array_map is not None, AMOK(array_map) and len(array) == array_map[2] and empty_if_full))
+    requires(implies(array_map is not None, AMOK(array_map, len(array_map[0]), array_map[0].shape[1], len(array_map[1])) and len(array) == array_map[2] and empty_if_full))
     requires(implies(array_map is not None, forall(0, len(array), lambda i: 0 <= array[i] and array[i] < array_map[0].shape[1])))
     requires(finite(value))
     modifies(array_map)
-    ensures(implies(array_map is not None, AMOK(result) and result[2] == array_map[2] and result[0].shape[1] == array_map[0].shape[1]))
+    ensures(implies(array_map is not None, AMOK(result, len(result[0]), result[0].shape[1], len(result[1])) and result[2] == array_map[2] and result[0].shape[1] == array_map[0].shape[1]))
     # frame: afterwards every key is a miss, or serves what it served before, or is `array` serving `value`
     ensures(implies(array_map is not None, forall_arr1(lambda k: AMMISS(result, k) or (not AMMISS(old(array_map), k) and AMGET(result, k) == AMGET(old(array_map), k)) or (k == val(array) and AMGET(result, k) == value), pattern=AMMISS(result, k))))
 
@@ -96,12 +150,12 @@ def log_likelihood_cached(reads: A[f8, 3], genotype: A[i1, 2], read_counts: Opt[
     requires(implies(read_counts is not None, forall(0, len(reads), lambda r: read_counts[r] >= 0 and implies(read_counts[r] == 0, RP(reads, genotype, r, len(genotype), genotype.shape[1], len(genotype)) > 0))))
     # every read has positive probability, so the likelihood is finite and can be cached
     requires(not isninf(LLK(reads, ones_if_none(read_counts), genotype, len(genotype), genotype.shape[1], len(reads))))
-    requires(implies(cache is not None, AMOK(cache) and cache[2] == len(genotype) * genotype.shape[1] and forall(0, len(genotype), lambda h: forall(0, genotype.shape[1], lambda j: genotype[h, j] < cache[0].shape[1]))))
+    requires(implies(cache is not None, AMOK(cache, len(cache[0]), cache[0].shape[1], len(cache[1])) and cache[2] == len(genotype) * genotype.shape[1] and forall(0, len(genotype), lambda h: forall(0, genotype.shape[1], lambda j: genotype[h, j] < cache[0].shape[1]))))
     requires(implies(cache is not None, COH(cache, reads, ones_if_none(read_counts), len(genotype), genotype.shape[1], len(reads))))
     modifies(cache)
     # the served value equals the freshly computed likelihood, with or without a cache
     ensures(result[0] == LLK(reads, ones_if_none(read_counts), genotype, len(genotype), genotype.shape[1], len(reads)))
-    ensures(implies(cache is not None, AMOK(result[1]) and result[1][2] == cache[2] and result[1][0].shape[1] == cache[0].shape[1]))
+    ensures(implies(cache is not None, AMOK(result[1], len(result[1][0]), result[1][0].shape[1], len(result[1][1])) and result[1][2] == cache[2] and result[1][0].shape[1] == cache[0].shape[1]))
     ensures(implies(cache is not None, COH(result[1], reads, ones_if_none(read_counts), len(genotype), genotype.shape[1], len(reads))))
     with entry():
         lemma_llk_ext(reads, ones_if_none(read_counts), genotype, canon2(genotype, len(genotype), genotype.shape[1]), len(genotype), genotype.shape[1], len(reads))
@@ -118,11 +172,11 @@ def log_likelihood_structural_change_cached(reads: A[f8, 3], genotype: A[i1, 2],
     requires(READSOK(reads, len(reads), reads.shape[1], reads.shape[2]))
     requires(implies(read_counts is not None, forall(0, len(reads), lambda r: read_counts[r] >= 0 and implies(read_counts[r] == 0, RP(reads, GP, r, len(genotype), genotype.shape[1], len(genotype)) > 0))))
     requires(not isninf(LLK(reads, ones_if_none(read_counts), GP, len(genotype), genotype.shape[1], len(reads))))
-    requires(implies(cache is not None, AMOK(cache) and cache[2] == len(genotype) * genotype.shape[1] and forall(0, len(genotype), lambda h: forall(0, genotype.shape[1], lambda j: genotype[h, j] < cache[0].shape[1]))))
+    requires(implies(cache is not None, AMOK(cache, len(cache[0]), cache[0].shape[1], len(cache[1])) and cache[2] == len(genotype) * genotype.shape[1] and forall(0, len(genotype), lambda h: forall(0, genotype.shape[1], lambda j: genotype[h, j] < cache[0].shape[1]))))
     requires(implies(cache is not None, COH(cache, reads, ones_if_none(read_counts), len(genotype), genotype.shape[1], len(reads))))
     modifies(cache)
     ensures(result[0] == LLK(reads, ones_if_none(read_counts), GP, len(genotype), genotype.shape[1], len(reads)))
-    ensures(implies(cache is not None, AMOK(result[1]) and result[1][2] == cache[2] and result[1][0].shape[1] == cache[0].shape[1]))
+    ensures(implies(cache is not None, AMOK(result[1], len(result[1][0]), result[1][0].shape[1], len(result[1][1])) and result[1][2] == cache[2] and result[1][0].shape[1] == cache[0].shape[1]))
     ensures(implies(cache is not None, COH(result[1], reads, ones_if_none(read_counts), len(genotype), genotype.shape[1], len(reads))))
     with defs():
         LO = ite(interval is None, 0, interval[0])
@@ -133,15 +187,42 @@ def log_likelihood_structural_change_cached(reads: A[f8, 3], genotype: A[i1, 2],
         lemma_llk_ext(reads, ones_if_none(read_counts), genotype_new, canon2(genotype_new, len(genotype), genotype.shape[1]), len(genotype), genotype.shape[1], len(reads))
 
 
-@contract("mchap.assemble.arraymap.new", trusted=True, props=["C09"])
+@lemma(shared=True)
+def lemma_node_empty(tree: A[int, 2], key: A[int, 1], i: int):
+    """in a tree whose root row is empty every non-trivial path is missing"""
+    requires(i >= 1, tree[0, key[0]] == -1)
+    ensures(NODE(tree, key, i) == -1)
+    decreases(i)
+    unfold(NODE(tree, key, i))
+    if i > 1:
+        lemma_node_empty(tree, key, i - 1)
+    else:
+        unfold(NODE(tree, key, 0))
+
+
+@contract("mchap.assemble.arraymap.new", machine_ints=True, props=["C09"])
 def new(array_length: int, node_branches: int, initial_size: int, max_size: int) -> ArrayMap:
-    requires(array_length >= 0, node_branches >= 1, initial_size >= 2)
-    ensures(AMOK(result), result[2] == array_length, result[0].shape[1] == node_branches)
+    requires(array_length >= 1, node_branches >= 1, initial_size >= 2)
+    ensures(AMOK(result, len(result[0]), result[0].shape[1], len(result[1])), result[2] == array_length, result[0].shape[1] == node_branches)
     ensures(forall_arr1(lambda k: AMMISS(result, k), pattern=AMMISS(result, k)))
+    with exit_():
+        M = (tree, values, array_length, 1, 0, max_size)
+        unfold(AMOK(M, initial_size, node_branches, initial_size))
+        with forall_intro_arr1(key, implies(KEYOK(key, array_length, node_branches), forall(0, array_length + 1, lambda i: -1 <= NODE(tree, key, i) and NODE(tree, key, i) < 1) and -1 <= VIDX(tree, key, array_length) and VIDX(tree, key, array_length) < 0 and implies(VIDX(tree, key, array_length) >= 0, finite(values[VIDX(tree, key, array_length)])))):
+            if KEYOK(key, array_length, node_branches):
+                with forall_intro(i, 0, array_length + 1, -1 <= NODE(tree, key, i) and NODE(tree, key, i) < 1):
+                    if i >= 1:
+                        lemma_node_empty(tree, key, i)
+                    else:
+                        unfold(NODE(tree, key, 0))
+                lemma_node_empty(tree, key, array_length)
+        with forall_intro_arr1(k2, AMMISS(M, k2), pattern=AMMISS(M, k2)):
+            unfold(AMMISS(M, k2))
+            lemma_node_empty(tree, k2, array_length)
 
 
 @contract("mchap.assemble.likelihood.new_log_likelihood_cache", machine_ints=True, props=["C09"])
 def new_log_likelihood_cache(ploidy: int, n_base: int, max_alleles: int, max_size: int) -> ArrayMap:
-    requires(ploidy >= 0, n_base >= 0, ploidy * n_base <= 2 ** 48, max_alleles >= 1)
-    ensures(AMOK(result), result[2] == ploidy * n_base, result[0].shape[1] == max_alleles)
+    requires(ploidy >= 1, n_base >= 1, ploidy * n_base <= 2 ** 48, max_alleles >= 1)
+    ensures(AMOK(result, len(result[0]), result[0].shape[1], len(result[1])), result[2] == ploidy * n_base, result[0].shape[1] == max_alleles)
     ensures(forall_arr1(lambda k: AMMISS(result, k), pattern=AMMISS(result, k)))
